@@ -29,6 +29,7 @@ for _k in ("OPENBLAS_NUM_THREADS", "OMP_NUM_THREADS", "MKL_NUM_THREADS"):
 
 from dst import adapter as A          # noqa: E402
 from dst import run as R              # noqa: E402
+from dst import strat as S            # noqa: E402
 from dst.shrink import shrink         # noqa: E402
 from dst.util import jdump            # noqa: E402
 
@@ -37,7 +38,7 @@ GATE_INV = {"C09": ("I3",), "C14": ("I2",), "C15": ("I1", "I7", "I8"),
 
 # (fault-free runs, fault-injecting runs) per tier
 BUDGET = {
-    "quick": {"C09": (1500, 900), "C14": (2400, 600), "C15": (2000, 600),
+    "quick": {"C09": (1200, 700), "C14": (2400, 600), "C15": (2000, 600),
               "C03": (1800, 600), "C04": (1800, 700), "C12": (1800, 600)},
     "thorough": {"C09": (30000, 18000), "C14": (50000, 10000), "C15": (40000, 10000),
                  "C03": (36000, 10000), "C04": (36000, 12000), "C12": (36000, 10000)},
@@ -92,11 +93,13 @@ def work(prop, master, idxs, tier, faults):
     faulthandler.dump_traceback_later(900, exit=True)
     agg = {"runs": 0, "ops": 0, "stats": Counter(), "probes": Counter(),
            "oracle": Counter(), "digests": {}, "trans": set(), "viol": [],
-           "samples": [], "errors": [], "known": Counter(), "wall": 0.0, "notes": []}
+           "samples": [], "errors": [], "known": Counter(), "wall": 0.0, "notes": [],
+           "strat": Counter()}
+    family = faults[6:] if isinstance(faults, str) else None
     for i in idxs:
-        seed = R.run_seed_for(master, prop, i, faults)
+        seed = i if family else R.run_seed_for(master, prop, i, faults)
         try:
-            r = R.simulate(prop, seed, tier, faults)
+            r = R.simulate_strat(prop, family, i) if family else R.simulate(prop, seed, tier, faults)
         except Exception:
             agg["errors"].append({"seed": seed, "i": i, "tb": traceback.format_exc()})
             continue
@@ -119,22 +122,30 @@ def work(prop, master, idxs, tier, faults):
         elif len(agg["samples"]) < 1 and gated > 0 and len(r["ops"]) <= 40:
             agg["samples"].append({"seed": seed, "faults": faults, "ops": r["ops"],
                                    "digest": r["digest"]})
+        if family:
+            agg["strat"][family] += 1
     faulthandler.cancel_dump_traceback_later()
     agg["trans"] = sorted(jdump(t) for t in agg["trans"])
     return agg
 
 
-def run_batch(prop, tier, master, n_ff, n_f, workers, deadline):
+def run_batch(prop, tier, master, n_ff, n_f, workers, deadline, strata=()):
     ctx = multiprocessing.get_context("fork")
     jobs = []
     chunk = 8 if tier == "quick" else 25
     for faults, n in ((False, n_ff), (True, n_f)):
         for s in range(0, n, chunk):
             jobs.append((faults, list(range(s, min(n, s + chunk)))))
+    for family, total_space, n in strata:
+        idxs = S.sample_indices(master, family, total_space, n)
+        sc = chunk * (1 if prop == "C09" else 4)
+        for s in range(0, len(idxs), sc):
+            jobs.append(("strat:" + family, idxs[s:s + sc]))
     total = {"runs": 0, "ops": 0, "stats": Counter(), "probes": Counter(),
              "oracle": Counter(), "digests": {}, "trans": set(), "viol": [],
              "samples": [], "errors": [], "known": Counter(), "wall": 0.0,
-             "runs_ff": 0, "runs_f": 0, "skipped_jobs": 0, "notes": []}
+             "runs_ff": 0, "runs_f": 0, "runs_strat": 0, "skipped_jobs": 0, "notes": [],
+             "strat": Counter()}
     pending = list(jobs)
     for attempt in (1, 2):
         # a worker that dies (watchdog, kernel OOM) breaks the whole pool: the jobs
@@ -154,8 +165,9 @@ def run_batch(prop, tier, master, n_ff, n_f, workers, deadline):
                         continue
                     for k in ("runs", "ops", "wall"):
                         total[k] += a[k]
-                    total["runs_f" if faults else "runs_ff"] += a["runs"]
-                    for k in ("stats", "probes", "oracle", "known"):
+                    total["runs_strat" if isinstance(faults, str) else
+                          "runs_f" if faults else "runs_ff"] += a["runs"]
+                    for k in ("stats", "probes", "oracle", "known", "strat"):
                         total[k].update(a[k])
                     total["digests"].update(a["digests"])
                     total["trans"] |= set(a["trans"])
@@ -189,7 +201,8 @@ def run_batch(prop, tier, master, n_ff, n_f, workers, deadline):
 def write_replay(prop, v, ops, digest=None):
     rdir = os.environ.get("VERIF_REPLAY_DIR", os.path.join(HERE, "replays"))
     os.makedirs(rdir, exist_ok=True)
-    path = os.path.join(rdir, "%s-%d.json" % (prop, v["seed"]))
+    tag = v["faults"][6:] + "-" if isinstance(v["faults"], str) else ""
+    path = os.path.join(rdir, "%s-%s%d.json" % (prop, tag, v["seed"]))
     doc = {"format": 1, "property": prop, "seed": v["seed"], "faults": v["faults"],
            "config": v.get("swarm"), "ops": ops, "violation": v["violation"],
            "vclass": v["vclass"], "digest": digest}
@@ -225,7 +238,7 @@ def finding_matches(f, vclass):
             and f.get("signature") == vclass[2])
 
 
-def check_property(prop, tier, master, n_ff, n_f, workers):
+def check_property(prop, tier, master, n_ff, n_f, workers, strat_scale=1.0):
     t0 = time.time()
     A.load()
     known = load_known()
@@ -234,11 +247,16 @@ def check_property(prop, tier, master, n_ff, n_f, workers):
     print("VERIF_SEED=%d property=%s tier=%s runs=%d+%d workers=%d src=%s"
           % (master, prop, tier, n_ff, n_f, workers, A.src_dir()), flush=True)
     deadline = t0 + WALL_CAP[tier]
-    tot = run_batch(prop, tier, master, n_ff, n_f, workers, deadline)
+    strata = [(f, space, int(round(n * strat_scale))) for f, space, n in S.families(prop, tier)]
+    strata = [x for x in strata if x[2] > 0]
+    print("stratified: " + ", ".join("%s %d/%d" % (f, min(n, sp), sp) for f, sp, n in strata),
+          flush=True)
+    tot = run_batch(prop, tier, master, n_ff, n_f, workers, deadline, strata)
+    tot["strata"] = strata
     wall_runs = time.time() - t0
     # ---- violations: one report per distinct class, smallest run index first
     classes = {}
-    for v in sorted(tot["viol"], key=lambda v: (v["faults"], v["i"])):
+    for v in sorted(tot["viol"], key=lambda v: (str(v["faults"]), v["i"])):
         classes.setdefault(tuple(v["vclass"]), v)
     nviol = 0
     replays = []
@@ -275,14 +293,14 @@ def check_property(prop, tier, master, n_ff, n_f, workers):
             print("HARNESS-ERROR:", e.get("tb", "")[-2000:], file=sys.stderr)
         if nviol == 0:
             return 2
-    planned = n_ff + n_f
+    planned = n_ff + n_f + sum(min(n, sp) for _, sp, n in strata)
     if tot["runs"] < 0.5 * planned and nviol == 0:
         print("HARNESS-ERROR: only %d of %d runs completed" % (tot["runs"], planned),
               file=sys.stderr)
         return 2
-    print("%s: %d runs (%d fault-free, %d fault-injecting), %d ops, %d distinct executions, "
-          "%.1fs, violations=%d"
-          % (prop, tot["runs"], tot["runs_ff"], tot["runs_f"], tot["ops"],
+    print("%s: %d runs (%d fault-free, %d fault-injecting, %d stratified), %d ops, "
+          "%d distinct executions, %.1fs, violations=%d"
+          % (prop, tot["runs"], tot["runs_ff"], tot["runs_f"], tot["runs_strat"], tot["ops"],
              len(tot["digests"]), wall, nviol))
     return 1 if nviol else 0
 
@@ -305,6 +323,20 @@ def write_evidence(prop, tier, master, tot, wall, wall_runs, nviol, replays, n_f
         "samples": tot["samples"][:3] or [{"note": "no sample kept"}],
         "runs_fault_free": int(tot["runs_ff"]),
         "runs_fault_injecting": int(tot["runs_f"]),
+        "runs_stratified": int(tot["runs_strat"]),
+        "stratified": {f: {"index_space": int(sp), "planned": int(min(n, sp)),
+                           "executed": int(tot["strat"].get(f, 0)),
+                           "fraction_of_space": round(tot["strat"].get(f, 0) / float(sp), 6)}
+                       for f, sp, n in tot.get("strata", [])},
+        "stratified_rule": ("stratified runs decode their index into one cell of a finite product "
+                            "space (dst/strat.py: hist<k> = grid class x every history of <= k letters "
+                            "over a 27-letter edit/solve/fault alphabet on two variables sharing one BC "
+                            "object; bc12/bc3 = class x periodic pattern per axis x {D,N,R} per side; "
+                            "algebra = {cell,face} x operator x operand kinds x class; builders = "
+                            "builder x class; terms = ordered term lists x solver seam x class; steps "
+                            "= class x alpha kind x 12 dt decades x scheme); what the stratum leaves "
+                            "open is drawn from a PRNG seeded by the index; indices are sampled "
+                            "without replacement"),
         "planned_runs": [n_ff, n_f],
         "simulated_steps": int(tot["ops"]),
         "simulated_time": "the system has no clock; simulated time is counted in steps (ops)",
@@ -350,6 +382,19 @@ def write_evidence(prop, tier, master, tot, wall, wall_runs, nviol, replays, n_f
             json.dump(ev, f, indent=1, default=str, sort_keys=True)
 
 
+def _digest_list(prop, n):
+    """Digests of n random runs (alternating fault-free / fault-injecting) followed
+    by a few stratified runs of every family of this property."""
+    out = []
+    for i in range(n):
+        sd = R.run_seed_for(99, prop, i, i % 2)
+        out.append(R.simulate(prop, sd, "quick", bool(i % 2))["digest"])
+    for fam, space, _ in S.families(prop, "thorough"):
+        for idx in S.sample_indices(99, fam, space, max(2, n // 4)):
+            out.append(R.simulate_strat(prop, fam, idx)["digest"])
+    return out
+
+
 def selftest_determinism(n, workers):
     """Every seed: twice in-process, once in a fresh interpreter with
     PYTHONHASHSEED=0 and once with a random hash seed; digests must agree."""
@@ -357,9 +402,8 @@ def selftest_determinism(n, workers):
     bad = 0
     tot = 0
     for prop in R.PROPS:
-        seeds = [R.run_seed_for(99, prop, i, i % 2) for i in range(n)]
-        d1 = [R.simulate(prop, s, "quick", bool(i % 2))["digest"] for i, s in enumerate(seeds)]
-        d2 = [R.simulate(prop, s, "quick", bool(i % 2))["digest"] for i, s in enumerate(seeds)]
+        d1 = _digest_list(prop, n)
+        d2 = _digest_list(prop, n)
         outs = []
         for hs in ("0", "random"):
             env = dict(os.environ, PYTHONHASHSEED=hs)
@@ -367,13 +411,15 @@ def selftest_determinism(n, workers):
                                 "--n", str(n)], capture_output=True, text=True, env=env,
                                timeout=1200)
             outs.append(p.stdout.split())
-        for i in range(n):
+        for i in range(len(d1)):
             tot += 1
-            if not (d1[i] == d2[i] == outs[0][i] == outs[1][i]):
+            o0 = outs[0][i] if i < len(outs[0]) else "missing"
+            o1 = outs[1][i] if i < len(outs[1]) else "missing"
+            if not (d1[i] == d2[i] == o0 == o1):
                 bad += 1
-                print("NONDETERMINISTIC %s seed=%d: %s %s %s %s"
-                      % (prop, seeds[i], d1[i][:12], d2[i][:12], outs[0][i][:12], outs[1][i][:12]))
-    print("determinism selftest: %d seeds x 4 executions, %d mismatches" % (tot, bad))
+                print("NONDETERMINISTIC %s run#%d: %s %s %s %s"
+                      % (prop, i, d1[i][:12], d2[i][:12], o0[:12], o1[:12]))
+    print("determinism selftest: %d runs (random + stratified) x 4 executions, %d mismatches" % (tot, bad))
     return 0 if bad == 0 else 2
 
 
@@ -384,6 +430,8 @@ def main():
     ap.add_argument("--tier", default=os.environ.get("VERIF_TIER", "quick"))
     ap.add_argument("--runs", type=int)
     ap.add_argument("--fault-runs", type=int)
+    ap.add_argument("--strat-scale", type=float, default=1.0,
+                    help="multiply the number of stratified runs (0 = none)")
     ap.add_argument("--workers", type=int, default=min(16, os.cpu_count() or 1))
     ap.add_argument("--replay")
     ap.add_argument("--selftest")
@@ -405,9 +453,8 @@ def main():
         return 0
     if a.digests:
         A.load()
-        for i in range(a.n):
-            s = R.run_seed_for(99, a.digests, i, i % 2)
-            print(R.simulate(a.digests, s, "quick", bool(i % 2))["digest"])
+        for d in _digest_list(a.digests, a.n):
+            print(d)
         return 0
     if a.selftest == "determinism":
         return selftest_determinism(a.n, a.workers)
@@ -433,7 +480,7 @@ def main():
         if a.fault_runs is not None:
             n_f = a.fault_runs
         try:
-            return check_property(a.property, tier, master, n_ff, n_f, a.workers)
+            return check_property(a.property, tier, master, n_ff, n_f, a.workers, a.strat_scale)
         except Exception:
             traceback.print_exc()
             return 2
